@@ -3,8 +3,74 @@
    32 bits, moov children in a stable order) the bytes of C01's encoder decode, with C01's decode_box, to exactly
    that tree.  This is the converse direction of C01_tree (decode then encode), for constructed trees. *)
 From V.lib Require Import Base.
-From V.c01 Require Import C01Codec C01Model C01TreeProofs.
+From V.c01 Require Import C01Codec C01Model.
 From V.c19 Require Import C19Model C19TreeModel C19LeafProofs.
+
+(* ------------------------------------------------------------------ facts about C01's definitions
+   (the same statements exist in coq/c01/C01TreeProofs.v; they are re-proved here so that this file depends on
+   C01's DEFINITION files only, which always compile) *)
+Lemma header_rt name sz r :
+  lenN name = 4 -> 8 <= sz < 4294967296 ->
+  dec_hdr (enc_hdr name sz ++ r) = Ok (mkHdr name sz 8, r).
+Proof.
+  intros Hn [Hlo Hhi]. unfold dec_hdr, enc_hdr, pbind. rewrite <- app_assoc.
+  rewrite rd4 by lia. rewrite <- Hn, rdB_app by reflexivity.
+  replace (sz =? 1) with false by (symmetry; apply N.eqb_neq; lia).
+  replace (sz =? 0) with false by (symmetry; apply N.eqb_neq; lia).
+  replace (sz <? 8) with false by (symmetry; apply N.ltb_ge; lia).
+  reflexivity.
+Qed.
+
+Lemma moov_stable_id {A} (f : A -> bool) cs : forall acc,
+  moov_stable_from f acc cs = true -> fold_left (moov_add f) cs acc = acc ++ cs.
+Proof.
+  induction cs as [|c t IH]; intros acc H; cbn [fold_left moov_stable_from] in *.
+  - now rewrite app_nil_r.
+  - apply andb_true_iff in H. destruct H as [H1 H2]. apply negb_true_iff in H1.
+    unfold moov_add at 2. rewrite H1. rewrite (IH _ H2). now rewrite <- app_assoc.
+Qed.
+
+Section MapStable.
+  Context {A B : Type} (fa : A -> bool) (g : A -> bool * B) (Hg : forall a, fst (g a) = fa a).
+  Lemma last_trak_idx_map cs : forall i acc,
+    C01Model.last_trak_idx fst (map g cs) i acc = C01Model.last_trak_idx fa cs i acc.
+  Proof.
+    induction cs as [|c t IH]; intros i acc; cbn [map C01Model.last_trak_idx]; [reflexivity|].
+    now rewrite Hg, IH.
+  Qed.
+  Lemma moov_cond_map acc c : moov_cond fst (map g acc) (g c) = moov_cond fa acc c.
+  Proof. unfold moov_cond. now rewrite Hg, last_trak_idx_map, map_length. Qed.
+  Lemma moov_stable_map cs : forall acc,
+    moov_stable_from fst (map g acc) (map g cs) = moov_stable_from fa acc cs.
+  Proof.
+    induction cs as [|c t IH]; intros acc; cbn [map moov_stable_from]; [reflexivity|].
+    rewrite moov_cond_map. f_equal. rewrite <- IH. now rewrite map_app.
+  Qed.
+End MapStable.
+
+Definition genc (keep : bool) (c : mbox) : bool * res (list N) := (is_trak_box c, raw_box keep c).
+Definition cat_encs (l : list (bool * res (list N))) : res (list N) :=
+  fold_right (fun e acc => rcat (snd e) acc) (Ok []) l.
+
+Lemma raw_box_cont keep h cs :
+  raw_box keep (MCont h cs) =
+  (let encs := map (genc keep) cs in
+   let encs' := if bytes_eqb (h_name h) n_moov then moov_order fst encs else encs in
+   let all := rcat (Ok (enc_hdr (h_name h) (8 + sumN (map size_box cs)))) (cat_encs encs') in
+   if bytes_eqb (h_name h) n_moof then
+     match moof_pre cs with Ok _ => all | Err => Err | Panic => Panic | OutOfFuel => OutOfFuel end
+   else all).
+Proof. reflexivity. Qed.
+
+Lemma pre_body_cat keep cs :
+  fold_right (fun c acc => rcat (raw_box keep c) acc) (Ok []) cs = cat_encs (map (genc keep) cs).
+Proof. induction cs as [|c t IH]; [reflexivity|]. cbn [fold_right map cat_encs genc snd]. now rewrite IH. Qed.
+
+Lemma raw_box_pre keep h l r cs :
+  raw_box keep (MPre h l r cs) =
+  rcat (Ok (enc_hdr (leaf_name l) (size_leaf l + sumN (map size_box cs))))
+       (rcat (body_leaf l (if keep then r else dflt_rsv l)) (cat_encs (map (genc keep) cs))).
+Proof. cbn [raw_box]. now rewrite pre_body_cat. Qed.
 
 (* a leaf prints and parses back (under the header the encoder writes) *)
 Definition leaf_pp (d : hdr -> parser (leaf * rsvT)) (l : leaf) : Prop :=
